@@ -1,9 +1,37 @@
-(* C05 — placeholder until the refinement proof lands (see FS/RefineProofs.v). *)
-From Coq Require Import List NArith Bool.
-From PyFS Require Import Base.PyStr Base.Outcome FS.Tree FS.Ops FS.Ref FS.Agree FS.Mem.
+(* C05 — Move, copy and recursive remove never destroy unrelated data (reference semantics and MemoryFS model: move, copy, removetree, movedir onto a fresh destination; directory merges are covered by the correspondence run only). *)
+From Coq Require Import List NArith ZArith Bool Arith.
+From PyFS Require Import Base.PyStr Base.Outcome Path.PathModel Path.PathSpec FS.Tree FS.Monad FS.Mode FS.Base
+     FS.Mem FS.Ops FS.Ref FS.Agree FS.Props FS.Wf FS.PropsProofs.
 Import ListNotations.
 
-Theorem C05_ref_makedir_example :
-  agree (mem_run (OMakedir [97%N] false) empty_dir) (ref_run (OMakedir [97%N] false) empty_dir) = true.
-Proof. reflexivity. Qed.
-Print Assumptions C05_ref_makedir_example.
+Theorem C05_ref_preserved_move_copy_removetree : forall o t t',
+  wf t -> is_mcr o = true -> rs_tree (ref_run o t) = Some t' ->
+  preserved t t' o (match rs_res (ref_run o t) with ROk _ => true | _ => false end) = true.
+Proof. exact ref_preserved_move_copy_removetree. Qed.
+Print Assumptions C05_ref_preserved_move_copy_removetree.
+
+Theorem C05_mem_preserved_move_copy_removetree : forall o s,
+  wf s -> is_mcr o = true ->
+  preserved s (fst (mem_run o s)) o (is_ok (snd (mem_run o s))) = true.
+Proof. exact mem_preserved_move_copy_removetree. Qed.
+Print Assumptions C05_mem_preserved_move_copy_removetree.
+
+Theorem C05_mem_tree_exact_move_copy_removetree : forall o s,
+  wf s -> is_mcr o = true -> rs_tree (ref_run o s) = Some (fst (mem_run o s)).
+Proof. exact mem_tree_exact_move_copy_removetree. Qed.
+Print Assumptions C05_mem_tree_exact_move_copy_removetree.
+
+Theorem C05_ref_preserved_movedir_fresh : forall s d c pt a b t t',
+  wf t -> rpath s = inl a -> rpath d = inl b -> lookup t b = None ->
+  rs_tree (ref_run (OMovedir s d c pt) t) = Some t' ->
+  preserved t t' (OMovedir s d c pt)
+            (match rs_res (ref_run (OMovedir s d c pt) t) with ROk _ => true | _ => false end) = true.
+Proof. exact ref_preserved_movedir_fresh. Qed.
+Print Assumptions C05_ref_preserved_movedir_fresh.
+
+Theorem C05_mem_preserved_movedir_fresh : forall src dst create pt s cs cd,
+  wf s -> rpath src = inl cs -> rpath dst = inl cd -> lookup s cd = None ->
+  preserved s (fst (mem_run (OMovedir src dst create pt) s)) (OMovedir src dst create pt)
+            (is_ok (snd (mem_run (OMovedir src dst create pt) s))) = true.
+Proof. exact mem_preserved_movedir_fresh. Qed.
+Print Assumptions C05_mem_preserved_movedir_fresh.
